@@ -188,7 +188,7 @@ PROPS = {
                           'a bool given for an int parameter is accepted by check_integer (bool is an int in Python) and not counted as wrongly typed. A-exc: exceptions raised by NumPy on '
                           'malformed arrays (wrong shapes) are outside the claim. NOT decided: printing (str) totality as its own obligation; "never raises" after the prologue (C08).',
             'not_decided': ['str(result) total']},
-    'C19': {'bundles': ['owner', 'ledger'], 'level': 'proof',
+    'C19': {'bundles': ['owner', 'ledger', 'paramcheck'], 'level': 'proof',
             'level_text': '(a) Ownership: solve is executed with flow- and path-sensitive tags (borrowed / fresh); no in-place write (element, slice or mask store, augmented assignment, '
                           'mutating method) reaches a possibly-borrowed object and every mutable array handed to the rest of the package is fresh; no function of the package writes to a '
                           'projection list it received. (b) Determinism: np.random is used only in three source functions; the two direction generators are called only from five sites, '
